@@ -322,7 +322,8 @@ def run_sequence(sh, lab, cfg, ops, clocks, messages=None):
     return nframes_total >= 2 and throttled_advances >= 1
 
 
-FORMATS = [None, " %message% %current%/%max% [%bar%] %percent:3s%%", " %current%/%max% [%bar%]\n %percent:3s%% %message%"]
+FORMATS = [None, " %message% %current%/%max% [%bar%] %percent:3s%%", " %current%/%max% [%bar%]\n %percent:3s%% %message%",
+           " %current%/%max% [%bar%] %percent:3s%% left %remaining:6s% of %estimated:-6s%"]
 
 
 def config_grid(tier):
@@ -381,7 +382,7 @@ def run(sh, spec):
             mx = rng.choice([0, 1, 3, 10, 50, 200])
             fmt = rng.choice(FORMATS) if (mx and kind != "quiet") else None
             if kind != "quiet" and rng.random() < 0.15:
-                fmt = rng.choice(["normal", "verbose"])  # a format given by its name (the *_nomax variant is picked for a bar without maximum)
+                fmt = rng.choice(["normal", "verbose", "very_verbose", "debug"])  # a format given by its name (the *_nomax variant is picked for a bar without maximum)
             cfg = dict(out=kind, max=mx, bw=rng.choice([1, 2, 10, 28, 40]), minsec=rng.choice([0, 0.1, 1]), verbosity=rng.choice([0, 1, 2, 4]), fmt=fmt,
                        via_io=rng.random() < 0.25, maxsec=rng.choice([None, None, 0.02, 0.5, 3]))
             if kind == "section" and rng.random() < 0.4:
